@@ -44,12 +44,21 @@ static void *client(void *a){ long role = (long)a;
       else { atomic_fetch_add(&tmo,1); if(t1-t0<to) fail("dispatch_semaphore_wait returned non-zero before its timeout elapsed: ns early",(long)(to-(t1-t0)),0,0); } } }
   return NULL; }
 static void *fw(void *a){ (void)a; atomic_fetch_add(&forever_waiting,1); dispatch_semaphore_wait(S,DISPATCH_TIME_FOREVER); atomic_fetch_add(&okw,1); atomic_fetch_sub(&forever_waiting,1); return NULL; }
+// interruptions: a handler installed without SA_RESTART runs on the client threads while they sit in the kernel wait; an interrupted
+// timed wait must resume waiting for the rest of its timeout (EINTR is neither a timeout nor a signal of the semaphore)
+#include <signal.h>
+static void on_usr1(int s){ (void)s; }
+static pthread_t cth[64]; static int ncth; static atomic_int pinger_stop;
+static void *pinger(void *a){ (void)a; while(!atomic_load(&pinger_stop)){ for(int i=0;i<ncth;i++) pthread_kill(cth[i],SIGUSR1); usleep(300); } return 0; }
 int main(int argc, char **argv){
   seed = argc>1 ? strtoull(argv[1],0,0) : 1; int nthr = argc>2 ? atoi(argv[2]) : 4; nops = argc>3 ? atoi(argv[3]) : 300; init = argc>4 ? atol(argv[4]) : 2;
   evs = calloc(MAXEV, sizeof(ev_t)); S = dispatch_semaphore_create(init);
   _dispatch_verif_yield_cb = ycb; _dispatch_verif_atomic_cb = cb;
-  pthread_t th[64]; for (long i=0;i<nthr;i++) pthread_create(&th[i],0,client,(void*)i);
-  for (int i=0;i<nthr;i++) pthread_join(th[i],0);
+  struct sigaction sa; memset(&sa,0,sizeof sa); sa.sa_handler=on_usr1; sigaction(SIGUSR1,&sa,0);
+  for (long i=0;i<nthr;i++) pthread_create(&cth[i],0,client,(void*)i);
+  ncth=nthr; pthread_t pg; int ping = argc>5 ? atoi(argv[5]) : 1; if(ping) pthread_create(&pg,0,pinger,0);
+  for (int i=0;i<nthr;i++) pthread_join(cth[i],0);
+  atomic_store(&pinger_stop,1); if(ping) pthread_join(pg,0); ncth=0;
   // conservation: drain what is left by polling
   long expect = init + atomic_load(&sigDone) - atomic_load(&okw); long got=0;
   if(!viol){ if(expect<0) fail("more successes than permits at the end: expected remaining",expect,0,0);
